@@ -1,4 +1,4 @@
-I='grpcgcp/gcp_interceptor.go'; B='grpcgcp/gcp_balancer.go'; P='grpcgcp/gcp_picker.go'; M='grpcgcp/multiendpoint/multiendpoint.go'
+G='grpcgcp/gcp_multiendpoint.go'; I='grpcgcp/gcp_interceptor.go'; B='grpcgcp/gcp_balancer.go'; P='grpcgcp/gcp_picker.go'; M='grpcgcp/multiendpoint/multiendpoint.go'
 MUT={
  'c01-bind-overwrite': [(B,'''	if !ok {
 		gb.affinityMap[bindKey] = sc
@@ -155,4 +155,36 @@ MUT={
 			return err""","""			cs.initStreamErr = err
 			cs.Unlock()
 			return err""")],
+ 'c15-skip-status-sync': [(G,"""	for e, mc := range gme.pools {
+		s := mc.conn.GetState()
+		for _, me := range gme.mes {
+			me.SetEndpointAvailability(e, s == connectivity.Ready)
+		}
+	}
+	return nil""","""	return nil""")],
+ 'c15-default-old': [(G,"""	gme.defaultName = meOpts.Default
+
+	// Remove obsolete MultiEndpoints.""","""	// Remove obsolete MultiEndpoints.""")],
+ 'c15-no-stop-monitor': [(G,"""			mc.stopMonitoring()
+			delete(gme.pools, e)""","""			delete(gme.pools, e)""")],
+ 'c16-close-no-stop': [(G,"""	for e, mc := range gme.pools {
+		mc.stopMonitoring()
+		if err := mc.conn.Close(); err != nil {""","""	for e, mc := range gme.pools {
+		if err := mc.conn.Close(); err != nil {""")],
+ 'c16-no-validate': [(G,"""		if meo == nil || len(meo.Endpoints) == 0 {""","""		if meo == nil {""")],
+ 'c16-ctor-no-close': [(G,"""		gme.Close()
+		return nil, err""","""		return nil, err""")],
+ 'c15-no-close-obsolete': [(G,"""			if err := mc.conn.Close(); err != nil {
+				gme.log.Errorf("error while closing the pool for %q endpoint: %v", e, err)
+			}
+			if gme.log.V(FINE) {
+				gme.log.Infof("closed channel pool for %q endpoint.", e)
+			}
+			mc.stopMonitoring()""","""			mc.stopMonitoring()""")],
+ 'c15-name-lookup': [(G,"""	if !ok || !ook {
+		me = gme.mes[gme.defaultName]
+	}""","""	if !ook {
+		me = gme.mes[gme.defaultName]
+	}
+	_ = ok""")],
 }
